@@ -70,6 +70,10 @@ class Parameter(ir.Value):
 
         Uses direct assignment to ``graph.initializers[...]`` to skip the
         const_value check. Idempotent: subsequent calls are no-ops.
+
+        Raises:
+            ValueError: If the parameter has no name, or if a different initializer is
+                already registered under the qualified name.
         """
         if self._realized:
             return self
@@ -82,7 +86,20 @@ class Parameter(ir.Value):
                 "initialized with a name before realization."
             )
         root = builder.root
-        self_name = self.name = builder._qualify_initializer_name(self_name)  # pylint: disable=protected-access
+        qualified_name = builder._qualify_initializer_name(self_name)  # pylint: disable=protected-access
+        existing = root.graph.initializers.get(qualified_name)
+        if existing is not None and existing is not self:
+            # Same check as ir.Graph.register_initializer: storing this parameter would silently
+            # replace another initializer (e.g. a Parameter or Module object shared between modules
+            # keeps the name of its first registration, or explicit names that coincide after
+            # qualification), and that tensor would be missing from the model.
+            raise ValueError(
+                f"Cannot register parameter {self_name!r} as initializer {qualified_name!r}: "
+                f"the name is already used by another initializer ({existing!r}). A Parameter or "
+                "Module object that is shared between modules keeps the name of its first "
+                "registration; give the conflicting parameters distinct names."
+            )
+        self_name = self.name = qualified_name
         root.graph.initializers[self_name] = self
         self._realized = True
         return self
